@@ -352,6 +352,9 @@ class CSSImportRule(cssrule.CSSRule):
                 self.hrefFound = True
 
         self._styleSheet = importedSheet
+        if self.parentStyleSheet is not None and importedSheet.variables.length:
+            # the variables of the sheet include those of imported sheets
+            self.parentStyleSheet._updateVariables()
 
     _href = None  # needs to be set
     href = property(
